@@ -1,4 +1,5 @@
-(* Free theorems: the NumI run of the sufficient-statistics terms encloses their NumR value. *)
+(* Free theorems: the NumI run of the sufficient-statistics terms encloses their NumR value; the
+   coalescent counts (exact data) are the same list on both sides. *)
 From Coq Require Import QArith Reals List.
 From Param Require Import Param.
 From TT Require Import Num NumR NumI ParamI Tree M_coalescent M_gmrf M_suffstat.
@@ -12,5 +13,52 @@ Parametricity Recursive skygrid_counts_q qualified.
 Parametricity Recursive skyride_rec_q qualified.
 Parametricity Recursive skygrid_rec_q qualified.
 Parametricity Recursive const_integrated_q qualified.
-Check TT_o_M_suffstat_o_skygrid_counts_q_R.
-Check TT_o_M_suffstat_o_const_integrated_q_R.
+
+Lemma qlist_refl'' (l : list Q) : list_R Q Q Q_R l l.
+Proof. apply list_R_refl, Q_R_refl. Qed.
+Lemma nat_R_eq a b : nat_R a b -> a = b.
+Proof. induction 1; congruence. Qed.
+Lemma natlist_R_eq (a b : list nat) : list_R nat nat nat_R a b -> a = b.
+Proof. induction 1 as [|x y Hxy l m Hlm IH]; [reflexivity|]. apply nat_R_eq in Hxy. congruence. Qed.
+
+Lemma skyride_ss_enclosed tips coals :
+  list_R R I.type rel (skyride_ss_q NumR tips coals) (skyride_ss_q NumI tips coals).
+Proof.
+  exact (TT_o_M_suffstat_o_skyride_ss_q_R R I.type rel NumR NumI NumRI_R
+           tips tips (qlist_refl'' _) coals coals (qlist_refl'' _)).
+Qed.
+Lemma skygrid_ss_enclosed grid tips coals :
+  list_R R I.type rel (skygrid_ss_q NumR grid tips coals) (skygrid_ss_q NumI grid tips coals).
+Proof.
+  exact (TT_o_M_suffstat_o_skygrid_ss_q_R R I.type rel NumR NumI NumRI_R
+           grid grid (qlist_refl'' _) tips tips (qlist_refl'' _) coals coals (qlist_refl'' _)).
+Qed.
+Lemma skygrid_counts_same grid tips coals :
+  skygrid_counts_q NumR grid tips coals = skygrid_counts_q NumI grid tips coals.
+Proof.
+  apply natlist_R_eq.
+  exact (TT_o_M_suffstat_o_skygrid_counts_q_R R I.type rel NumR NumI NumRI_R
+           grid grid (qlist_refl'' _) tips tips (qlist_refl'' _) coals coals (qlist_refl'' _)).
+Qed.
+Lemma skyride_rec_enclosed thetas tips coals :
+  rel (skyride_rec_q NumR thetas tips coals) (skyride_rec_q NumI thetas tips coals).
+Proof.
+  exact (TT_o_M_suffstat_o_skyride_rec_q_R R I.type rel NumR NumI NumRI_R thetas thetas (qlist_refl'' _)
+           tips tips (qlist_refl'' _) coals coals (qlist_refl'' _)).
+Qed.
+Lemma skygrid_rec_enclosed thetas grid tips coals :
+  rel (skygrid_rec_q NumR thetas grid tips coals) (skygrid_rec_q NumI thetas grid tips coals).
+Proof.
+  exact (TT_o_M_suffstat_o_skygrid_rec_q_R R I.type rel NumR NumI NumRI_R thetas thetas (qlist_refl'' _)
+           grid grid (qlist_refl'' _) tips tips (qlist_refl'' _) coals coals (qlist_refl'' _)).
+Qed.
+Lemma const_integrated_enclosed alpha beta ga Ga gm Gm tips coals :
+  rel ga Ga -> rel gm Gm ->
+  rel (const_integrated_q NumR alpha beta ga gm tips coals)
+      (const_integrated_q NumI alpha beta Ga Gm tips coals).
+Proof.
+  intros Ha Hm.
+  exact (TT_o_M_suffstat_o_const_integrated_q_R R I.type rel NumR NumI NumRI_R
+           alpha alpha (Q_R_refl _) beta beta (Q_R_refl _) ga Ga Ha gm Gm Hm
+           tips tips (qlist_refl'' _) coals coals (qlist_refl'' _)).
+Qed.
